@@ -233,6 +233,8 @@ def rand_run(rng, fmt, kind, *, calls=None, iters=None, value_classes=None, dist
     return s, classes, {'kind': kind, 'dims': dims, 'channels': channels, 'calls': cl_calls}
 
 KINDS = ['plain', 'vegas', 'mc']
+# structure sizes far above what ordinary cases use: around powers of two (index types, buffers) and odd ones (halving schemes)
+BIG_COUNTS = [65, 100, 129, 130, 255, 256, 257, 300, 515, 700, 1001]
 
 def small_bins(s):
     """the executed model refines the grid once per rank: keep default grids small in MPI cases (cost ~ ranks x dims x bins^2)"""
@@ -316,6 +318,23 @@ def gen_C09(c, rng, tier):
             for u in us:
                 cl = ['boundary' if u in cum else 'zero' if u == 0 else 'other'] + (['has_zero_weight'] if any(w == 0 for w in ws) else [])
                 c.add(t, 'select', [toks(fmt, ws), fmt.tok(u)], classes=cl, nontrivial=(u in cum or any(w == 0 for w in ws)))
+        # long weight vectors (sizes beyond any index type narrower than size_t, beyond small-buffer and guide-table thresholds)
+        for n in rng.sample(BIG_COUNTS, scale(tier, 3, len(BIG_COUNTS))):
+            ws = rand_weights(rng, fmt, n)
+            for i in range(n):
+                if rng.random() < 0.2: ws[i] = Fraction(0)
+            if rng.random() < 0.5: ws[0] = Fraction(0)
+            if all(w == 0 for w in ws): ws[n // 2] = Fraction(1)
+            cum = oracles.cumulative(fmt, ws)
+            us = [Fraction(0), pred1(fmt)]
+            for s in rng.sample(cum, 10) + [cum[0], cum[-2], cum[254 if n > 255 else n // 2]]:
+                for v in (s, fmt.pred(s), fmt.succ(s)):
+                    if isnum(v) and 0 <= v < 1 and (v * 2 ** 64).denominator == 1:
+                        us.append(v)
+            us += [rand_unit(rng, fmt) for _ in range(6)]
+            for u in us:
+                c.add(t, 'select', [toks(fmt, ws), fmt.tok(u)], classes=['long_weight_vector', 'boundary' if u in cum else 'zero' if u == 0 else 'other', 'has_zero_weight'],
+                      nontrivial=True)
     gen_C09_runs(c, rng, tier)
 
 def gen_C09_runs(c, rng, tier):
@@ -338,6 +357,25 @@ def gen_C09_runs(c, rng, tier):
                          f=['tab', toks(fmt, [Fraction(1), Fraction(0), Fraction(2)])], mp=rand_map_tab(rng, fmt, channels), trace=1, ops=[['run', [n]], ['dump']])
             c.add(t, 'run', s, classes=['selection_in_real_runs'] + (['first_channel_disabled'] if ws[0] == 0 else []) + (['last_channel_disabled'] if ws[-1] == 0 else []),
                   info={'kind': 'mc', 'dims': dims, 'channels': channels, 'calls': [n]})
+        gen_big_channel_runs(c, rng, tier, t)
+
+def gen_big_channel_runs(c, rng, tier, t):
+    """multi-channel runs with 65..515 channels, many of them disabled (the first always), extreme engine outputs on the selecting draw"""
+    fmt = FMTS[t]
+    for channels in rng.sample(BIG_COUNTS[:9], scale(tier, 2, 9)):
+        dims = 1
+        ws = rand_weights(rng, fmt, channels)
+        for i in range(channels):
+            if rng.random() < 0.3: ws[i] = Fraction(0)
+        ws[0] = Fraction(0); ws[-1] = Fraction(rng.randint(1, 4))
+        n = 12
+        extremes = [0, 2 ** 64 - 1, 1, 2 ** 63, min(2 ** 64 - 1, 2 ** 64 - 2 ** max(0, 63 - fmt.prec)), 2 ** (64 - fmt.prec)]
+        raw = []
+        for i in range(n):
+            raw += [rng.getrandbits(64), rng.choice(extremes) if i % 2 else rng.getrandbits(64)]
+        s = spec_run('mc', fmt, dims=dims, channels=channels, raw=raw, chk=['weights', toks(fmt, ws), fmt.rtok(0), fmt.rtok(Fraction(1, 4))],
+                     f=['tab', toks(fmt, [Fraction(1), Fraction(0), Fraction(2)])], mp=rand_map_tab(rng, fmt, channels, n=3), trace=1, ops=[['run', [n, n]], ['dump']])
+        c.add(t, 'run', s, classes=['selection_in_real_runs', 'many_channels', 'first_channel_disabled'], info={'kind': 'mc', 'dims': dims, 'channels': channels, 'calls': [n, n]})
 
 @prop('C07', 'refinements of valid grids (uniform/random/peaked/tied/1-ulp bins) with data all-zero / single non-zero / exponent-spanning / random, '
       'alpha in {0,.5,1.5,3}, chains of refinements; inverse CDF at 0, pred(1), 1, every j/bins and neighbours; 3 types; '
@@ -402,6 +440,15 @@ def gen_C08(c, rng, tier):
             c.add(t, 'refine_w', [toks(fmt, ws), toks(fmt, data), fmt.rtok(minw), fmt.rtok(beta)],
                   classes=['data_' + dk, 'minw_%s' % ('zero' if minw == 0 else 'positive')] + (['has_zero_weight'] if any(w == 0 for w in ws) else []),
                   nontrivial=(dk != 'random' or minw > 0 or any(w == 0 for w in ws)))
+        for n in rng.sample(BIG_COUNTS, scale(tier, 3, len(BIG_COUNTS))):
+            ws = rand_weights(rng, fmt, n)
+            ws[-1] = Fraction(rng.randint(50, 400))        # a heavy last channel
+            data = [Fraction(0) if rng.random() < 0.2 else fmt.round(Fraction(rng.getrandbits(20) + 1, 1024)) for _ in range(n)]
+            data[-1] = fmt.round(Fraction(rng.randint(1000, 5000)))
+            beta = rng.choice([Fraction(1, 4), Fraction(1, 2), Fraction(1)])
+            minw = rng.choice([Fraction(0), Fraction(1, 100 * n), Fraction(1, 2 * n)])
+            c.add(t, 'refine_w', [toks(fmt, ws), toks(fmt, data), fmt.rtok(minw), fmt.rtok(beta)],
+                  classes=['many_channels', 'data_somezero', 'minw_%s' % ('zero' if minw == 0 else 'positive')], nontrivial=True)
     gen_C08_runs(c, rng, tier)
 
 def gen_C08_runs(c, rng, tier):
@@ -427,6 +474,7 @@ def gen_C08_runs(c, rng, tier):
             calls = info['calls']
             s = [e for e in s if e[0] != 'ops'] + [['ops', [['run', calls[:1]], ['reload'], ['run', calls[1:]], ['rollback', 0], ['dump'], ['run', calls], ['dump']]]]
             c.add(t, 'run', s, classes=cl + ['reload_resume_rollback_redo'], info=info)
+        gen_big_channel_runs(c, rng, tier, t)
 
 def gen_C07_runs(c, rng, tier):
     """grids inside real VEGAS runs: chains of refinements driven by peaked integrands, zero iterations in between"""
@@ -699,7 +747,7 @@ def gen_C17_many_channels(c, rng, tier):
     for t in TYPES:
         fmt = FMTS[t]
         for _ in range(scale(tier, 8, 60)):
-            channels = rng.choice([9, 10, 11, 14, 15, 18, 21, 22, 23, 41, 49]); dims = 1
+            channels = rng.choice([9, 10, 11, 14, 15, 18, 21, 22, 23, 41, 49] + BIG_COUNTS[:8]); dims = 1
             n = rng.choice([6, 10])
             tops = [2 ** 64 - 1, 2 ** 64 - 2, min(2 ** 64 - 1, 2 ** 64 - 2 ** max(0, 63 - fmt.prec)), 2 ** 64 - 2 ** max(0, 64 - fmt.prec), 0, 2 ** 63]
             raw = []
@@ -710,6 +758,7 @@ def gen_C17_many_channels(c, rng, tier):
             s = spec_run('mc', fmt, dims=dims, channels=channels, raw=raw, chk=chk, f=['tab', toks(fmt, [Fraction(1), Fraction(0)])],
                          mp=rand_map_tab(rng, fmt, channels), trace=1, ops=[['run', [n]], ['dump']])
             c.add(t, 'run', s, classes=['kind_mc', 'many_channels', 'top_raw_engine_outputs'], info={'kind': 'mc', 'dims': dims, 'channels': channels, 'calls': [n]})
+        gen_big_channel_runs(c, rng, tier, t)
 
 @prop('C19', 'VEGAS and multi-channel runs of 2-5 iterations whose adjustment data actually move the state (polynomial integrands, asymmetric grid maps), default and '
       'user grids / weights (unnormalised, with zeros), all alpha / beta / minimum weights, also resumed from text; results k and k+1 and the points drawn are '
